@@ -262,6 +262,7 @@ def model(sc):
                 e["valid"] = False
             if P["print"]:
                 e["printed"] = True
+                e["print_count"] = e.get("print_count", 0) + 1
             if P["stop"]:
                 e["stopped"] = True
             if P["raise"]:
@@ -460,6 +461,9 @@ def execute(sc):
                 out.v("fail_semantics", f"{mw}: is_valid={cp.is_valid}, expected {e['valid']}", **facts)
             if bool(g["printed"]) != e["printed"]:
                 out.v("print_semantics", f"{mw}: printers received {g['printed']!r:.200}, expected {'some' if e['printed'] else 'no'} output", **facts)
+            elif len(g["printed"]) < e.get("print_count", 0):
+                # one message per handled error: several offending lines may well produce the very same text
+                out.v("print_semantics", f"{mw}: {e['print_count']} offending lines were evaluated with 'print' in effect but the printers received only {len(g['printed'])} message(s): {g['printed']!r:.200}", per_error=True, **facts)
             if g["lines"] is not None:
                 ret = [int(l[0][1:]) if l and l[0].startswith("r") else 0 for l in g["lines"]]
                 ret_has_header = True
